@@ -8,12 +8,12 @@ namespace FatVerif.C03fat
 open FatVerif.Fat
 
 /-- **alloc_spec.** On a sane table (`TableOk`: byte-valued, entries `[0,total+2)` inside the bytes,
-    `total+2 ≤ 0x?FF7`), with the first scan starting inside the table (`hstart`; automatic when `0 < total`), a hint
+    `total+2 ≤ 0x?FF7`), a hint
     that is absent or `≥ 2`, and `prev` absent or an allocated entry of the table:
     a successful `alloc_cluster` returns `c` with `2 ≤ c < total+2` that was `Free`; afterwards `view c = EOC`,
     `view prev = Data c`, every other entry has its old raw value, the length is unchanged and the table is still sane. -/
 theorem alloc_spec (ft : FatType) (f : Array Nat) (total : Nat) (ht : TableOk ft f total)
-    (prev hint : Option Nat) (hstart : allocStartV hint total < total + 2) (hh : ∀ n, hint = some n → 2 ≤ n)
+    (prev hint : Option Nat) (hh : ∀ n, hint = some n → 2 ≤ n)
     (hp : ∀ p, prev = some p → p < total + 2 ∧ view ft f p ≠ .free)
     (c : Nat) (h : (allocCluster f ft prev hint total).out = .ok c) :
     2 ≤ c ∧ c < total + 2 ∧ view ft f c = .free ∧
@@ -25,10 +25,10 @@ theorem alloc_spec (ft : FatType) (f : Array Nat) (total : Nat) (ht : TableOk ft
     TableOk ft (allocCluster f ft prev hint total).fat total := by
   cases hfind : allocFindV (view ft f) hint total with
   | none =>
-    rw [allocCluster_noSpace ht prev hint hstart hfind] at h; cases h
+    rw [allocCluster_noSpace ht prev hint hfind] at h; cases h
   | some c' =>
     obtain ⟨hc1, hc2, hc3⟩ := allocFindV_some _ _ _ _ hh hfind
-    obtain ⟨f', h1, h2, h3, h4, h5⟩ := allocCluster_ok ht prev hint hstart hh (fun p h => (hp p h).1) hfind
+    obtain ⟨f', h1, h2, h3, h4, h5⟩ := allocCluster_ok ht prev hint hh (fun p h => (hp p h).1) hfind
     rw [h1] at h ⊢
     cases h
     have hpc : ∀ p, prev = some p → p ≠ c := by
@@ -43,12 +43,12 @@ theorem alloc_spec (ft : FatType) (f : Array Nat) (total : Nat) (ht : TableOk ft
 
 /-- `alloc_cluster` fails with `NotEnoughSpace` iff no entry of `[2,total+2)` is free (C05 has the two halves) -/
 theorem alloc_nospace_iff (ft : FatType) (f : Array Nat) (total : Nat) (ht : TableOk ft f total)
-    (prev hint : Option Nat) (hstart : allocStartV hint total < total + 2) (hh : ∀ n, hint = some n → 2 ≤ n) :
+    (prev hint : Option Nat) (hh : ∀ n, hint = some n → 2 ≤ n) :
     (allocCluster f ft prev hint total).out = .error .noSpace ↔
       ∀ i, 2 ≤ i → i < total + 2 → view ft f i ≠ .free := by
   constructor
   · intro h
-    exact allocFindV_none _ _ _ (allocCluster_noSpace_inv ht prev hint hstart h)
+    exact allocFindV_none _ _ _ (allocCluster_noSpace_inv ht prev hint h)
   · intro h
     have : allocFindV (view ft f) hint total = none := by
       cases hf : allocFindV (view ft f) hint total with
@@ -56,7 +56,7 @@ theorem alloc_nospace_iff (ft : FatType) (f : Array Nat) (total : Nat) (ht : Tab
       | some c =>
         obtain ⟨a, b, c'⟩ := allocFindV_some _ _ _ _ hh hf
         exact absurd c' (h c a b)
-    rw [allocCluster_noSpace ht prev hint hstart this]
+    rw [allocCluster_noSpace ht prev hint this]
 
 /-- FAT16, 6 data clusters: 2→3→EOC, 4 free, 5→7→EOC (fragmented), 6 free -/
 def exTab : Array Nat :=
@@ -165,14 +165,14 @@ example : (freeChain .fat16 exCyc 7 15).out = .error .eof ∧ (freeChain .fat16 
     by the byte-level `alloc_cluster` … -/
 theorem chains_inv_alloc (ft : FatType) (f : Array Nat) (total : Nat) (ht : TableOk ft f total)
     (hw : FatWf (view ft f) total)
-    (prev hint : Option Nat) (hstart : allocStartV hint total < total + 2) (hh : ∀ n, hint = some n → 2 ≤ n)
+    (prev hint : Option Nat) (hh : ∀ n, hint = some n → 2 ≤ n)
     (hp : ∀ p, prev = some p → p < total + 2 ∧ view ft f p = .eoc) :
     FatWf (view ft (allocCluster f ft prev hint total).fat) total := by
   cases hfind : allocFindV (view ft f) hint total with
-  | none => rw [allocCluster_noSpace ht prev hint hstart hfind]; exact hw
+  | none => rw [allocCluster_noSpace ht prev hint hfind]; exact hw
   | some c =>
     obtain ⟨hc1, hc2, hc3⟩ := allocFindV_some _ _ _ _ hh hfind
-    obtain ⟨f', h1, h2, _⟩ := allocCluster_ok ht prev hint hstart hh (fun p h => (hp p h).1) hfind
+    obtain ⟨f', h1, h2, _⟩ := allocCluster_ok ht prev hint hh (fun p h => (hp p h).1) hfind
     rw [h1]
     show FatWf (view ft f') total
     rw [h2]
@@ -232,25 +232,25 @@ theorem exTab_wf : FatWf (view .fat16 exTab) 6 := by
     rcases hv a n ha with ⟨rfl, rfl⟩ | ⟨rfl, rfl⟩ <;> rcases hv b _ hb with ⟨rfl, e⟩ | ⟨rfl, e⟩ <;> first | rfl | omega
   · intro c n h; rcases hv c n h with ⟨rfl, rfl⟩ | ⟨rfl, rfl⟩ <;> simp
 
-/-- **alloc_wraparound (C20.3).** On a volume with at least one cluster, for ANY hint that is absent, out of range
+/-- **alloc_wraparound (C20.3).** On a volume of ANY size — also one with zero data clusters, since the repair of
+    F21 (commit 8aee7d6) —, for ANY hint that is absent, out of range
     (`≥ total+2`, incl. `total+2` itself — `Some(n) if n < end_cluster` sends it to 2) or anywhere in `[2,total+2)`:
     `alloc_cluster` succeeds iff some entry of `[2,total+2)` is free — in particular when only the LAST cluster
     `total+1` is free —, what it returns is a free cluster in `[2,total+2)`, never an index `≥ total+2`. -/
-theorem alloc_wraparound (ft : FatType) (f : Array Nat) (total : Nat) (ht : TableOk ft f total) (htot : 0 < total)
+theorem alloc_wraparound (ft : FatType) (f : Array Nat) (total : Nat) (ht : TableOk ft f total)
     (prev hint : Option Nat) (hh : ∀ n, hint = some n → 2 ≤ n) (hp : ∀ p, prev = some p → p < total + 2) :
     ((∃ c, (allocCluster f ft prev hint total).out = .ok c) ↔ ∃ i, 2 ≤ i ∧ i < total + 2 ∧ view ft f i = .free) ∧
     (∀ c, (allocCluster f ft prev hint total).out = .ok c → 2 ≤ c ∧ c < total + 2 ∧ view ft f c = .free) ∧
-    ((∀ i, 2 ≤ i → i < total + 1 → view ft f i ≠ .free) → view ft f (total + 1) = .free →
+    (0 < total → (∀ i, 2 ≤ i → i < total + 1 → view ft f i ≠ .free) → view ft f (total + 1) = .free →
       (allocCluster f ft prev hint total).out = .ok (total + 1)) := by
-  have hstart := allocStartV_lt hint total htot
   have key : ∀ c, allocFindV (view ft f) hint total = some c → (allocCluster f ft prev hint total).out = .ok c := by
     intro c hf
-    obtain ⟨f', h1, _⟩ := allocCluster_ok ht prev hint hstart hh hp hf
+    obtain ⟨f', h1, _⟩ := allocCluster_ok ht prev hint hh hp hf
     rw [h1]
   have hret : ∀ c, (allocCluster f ft prev hint total).out = .ok c → 2 ≤ c ∧ c < total + 2 ∧ view ft f c = .free := by
     intro c h
     cases hf : allocFindV (view ft f) hint total with
-    | none => rw [allocCluster_noSpace ht prev hint hstart hf] at h; cases h
+    | none => rw [allocCluster_noSpace ht prev hint hf] at h; cases h
     | some c' =>
       rw [key c' hf] at h; cases h
       exact allocFindV_some _ _ _ _ hh hf
@@ -259,7 +259,7 @@ theorem alloc_wraparound (ft : FatType) (f : Array Nat) (total : Nat) (ht : Tabl
   · rintro ⟨i, h1, h2, h3⟩
     obtain ⟨c, hc⟩ := allocFindV_isSome (view ft f) hint total i h1 h2 h3
     exact ⟨c, key c hc⟩
-  · intro hnone hlast
+  · intro htot hnone hlast
     obtain ⟨c, hc⟩ := allocFindV_isSome (view ft f) hint total (total + 1) (by omega) (by omega) hlast
     have := allocFindV_some _ _ _ _ hh hc
     have hc' : c = total + 1 := by
@@ -270,11 +270,11 @@ theorem alloc_wraparound (ft : FatType) (f : Array Nat) (total : Nat) (ht : Tabl
 
 /-- the scans read nothing beyond entry `total+1`: two sane tables that agree on `[0,total+2)` give the same answer -/
 theorem alloc_reads_only_table (ft : FatType) (f f2 : Array Nat) (total : Nat) (ht : TableOk ft f total)
-    (ht2 : TableOk ft f2 total) (hint : Option Nat) (hstart : allocStartV hint total < total + 2)
+    (ht2 : TableOk ft f2 total) (hint : Option Nat)
     (hsame : ∀ i, i < total + 2 → view ft f i = view ft f2 i) :
     allocFind ft f (allocStart hint (total + 2)) (total + 2) =
       allocFind ft f2 (allocStart hint (total + 2)) (total + 2) := by
-  rw [allocFind_sim ht hint hstart, allocFind_sim ht2 hint hstart]
+  rw [allocFind_sim ht hint, allocFind_sim ht2 hint]
   congr 1
   unfold allocFindV
   have hs := allocStartV_le hint total
@@ -285,20 +285,46 @@ theorem alloc_reads_only_table (ft : FatType) (f f2 : Array Nat) (total : Nat) (
 /-- last cluster only: hint = last+1 = total+2 (FS-info hint after allocating the last cluster, F13) still finds it -/
 example : (allocCluster #[0xF8, 0xFF, 0xFF, 0xFF, 0x0F, 0x00] .fat12 none (some 4) 2).out = .ok 3 := rfl
 
-/-- **refuted for `total = 0` on FAT12.** `Fat12::find_free` tests `cluster == end_cluster` only AFTER the increment,
-    so with `start == end` (= 2, the only way: a volume with zero data clusters) it reads entry 2 — a padding entry
-    beyond the table — and hands it out if it is zero. (`0 < total` is therefore a real hypothesis; FAT16/32 use
-    `while cluster < end` and return NotEnoughSpace.) -/
-theorem alloc_wraparound_counterexample :
-    (allocCluster #[0xF8, 0xFF, 0xFF, 0x00, 0x00, 0x00] .fat12 none none 0).out = .ok 2 ∧
-    (allocCluster #[0xF8, 0xFF, 0xFF, 0xFF, 0x00, 0x00, 0x00, 0x00] .fat16 none none 0).out = .error .noSpace :=
-  ⟨rfl, rfl⟩
+/-- a volume with zero data clusters: nothing to allocate, whatever the padding entries hold — the instance of
+    `alloc_wraparound` that was false for FAT12 before commit 8aee7d6 (hint absent or ≥ 2 as everywhere) -/
+theorem alloc_zero_clusters (ft : FatType) (f : Array Nat) (ht : TableOk ft f 0) (prev hint : Option Nat)
+    (hh : ∀ n, hint = some n → 2 ≤ n) : allocCluster f ft prev hint 0 = ⟨.error .noSpace, f⟩ := by
+  apply allocCluster_noSpace ht prev hint
+  cases hf : allocFindV (view ft f) hint 0 with
+  | none => rfl
+  | some c =>
+    obtain ⟨a, b, _⟩ := allocFindV_some _ _ _ _ hh hf
+    omega
 
-/-- the same off-by-one at the level of `find_free`: `start == end` scans on to the end of the stream -/
-theorem findFree12_start_eq_end :
-    findFree .fat12 #[0xF8, 0xFF, 0xFF, 0xFF, 0x0F, 0x00] 2 2 = .ok 3 ∧
+/-- F21 regression (repaired in commit 8aee7d6: `if start_cluster >= end_cluster { return Err(NotEnoughSpace) }`).
+    FAT12 volume with zero data clusters and a zero padding entry 2: before the repair `alloc_cluster` returned
+    cluster 2 = total+2 and wrote it; now it answers `NotEnoughSpace` and leaves the bytes alone, like FAT16. -/
+theorem alloc_zero_clusters_regression :
+    allocCluster #[0xF8, 0xFF, 0xFF, 0x00, 0x00, 0x00] .fat12 none none 0 =
+      ⟨.error .noSpace, #[0xF8, 0xFF, 0xFF, 0x00, 0x00, 0x00]⟩ ∧
+    (allocCluster #[0xF8, 0xFF, 0xFF, 0x00, 0x00, 0x00] .fat12 none (some 2) 0).out = .error .noSpace ∧
+    (allocCluster #[0xF8, 0xFF, 0xFF, 0xFF, 0x00, 0x00, 0x00, 0x00] .fat16 none none 0).out = .error .noSpace :=
+  ⟨rfl, rfl, rfl⟩
+
+example : TableOk .fat12 #[0xF8, 0xFF, 0xFF, 0x00, 0x00, 0x00] 0 :=
+  ⟨wfBytes_of_all _ (by decide), fun c hc => by simp only [InRange, off, width, u32Lim]; simp; omega, by decide⟩
+
+/-- the same at the level of `find_free`: an empty range (`start ≥ end`) is NotEnoughSpace for every width and reads
+    nothing (before the repair FAT12 scanned on to the end of the stream and returned 3 here) -/
+theorem findFree12_start_eq_end_regression :
+    findFree .fat12 #[0xF8, 0xFF, 0xFF, 0xFF, 0x0F, 0x00] 2 2 = .error .noSpace ∧
+    findFree .fat12 #[0xF8, 0xFF, 0xFF, 0xFF, 0x0F, 0x00] 3 2 = .error .noSpace ∧
     findFree .fat16 #[0xF8, 0xFF, 0xFF, 0xFF, 0xFF, 0xFF, 0x00, 0x00] 2 2 = .error .noSpace :=
-  ⟨rfl, rfl⟩
+  ⟨rfl, rfl, rfl⟩
+
+/-- in general -/
+theorem findFree_empty_range (ft : FatType) (f : Array Nat) (total s e : Nat) (ht : TableOk ft f total)
+    (hse : e ≤ s) (hs : s ≤ total + 2) : findFree ft f s e = .error .noSpace := by
+  have hsm := ht.small
+  cases ft
+  · exact findFree_empty12 f s e hse
+  · exact findFree_empty16 f s e hse (by simp only [badMark, u32Lim] at *; omega)
+  · exact findFree_empty32 f s e hse (by simp only [badMark, u32Lim] at *; omega)
 
 /-- **fat_offset_arith (C20.2).** The u32 offset computations of `table.rs` cannot overflow for any cluster number
     a FAT of that width can hold: `c·4 < 2^32` for `c ≤ 0x0FFFFFFF`, `c·2` for `c ≤ 0xFFFF`, `c + c/2` for
